@@ -94,7 +94,15 @@ def run(ctx):
         try:
             t3_swap(rep, fn, lookup_in([poly]))
         except Unsupported as e:
-            rep.unk('T3', 'a_poly_swap_', str(e))
+            # a reversal moves coefficients.  A cell that receives a sum / difference of loaded cells (the add-subtract exchange) holds
+            # the other coefficient only in exact arithmetic: a + b - b is not a in binary floating point
+            comp = [i for i in fn.instrs() if i.op == 'store' and i.ops[0].k == 'reg' and fn.defs.get(i.ops[0].v) is not None
+                    and fn.defs[i.ops[0].v].op in ('fadd', 'fsub', 'fmul', 'fdiv')]
+            if comp:
+                rep.bad('T3', 'a_poly_swap_', 'a cell receives a value computed from coefficients (%s): the exchange is exact only in real arithmetic' %
+                        fn.defs[comp[0].ops[0].v].op, loc=fn.loc(comp[0]), key='a_poly_swap_: stores')
+            else:
+                rep.unk('T3', 'a_poly_swap_', str(e))
     # bounded cross-check of the wrappers a_poly_eval/evar/swap (concrete lengths 1..6, symbolic coefficients)
     hdr_checks(ctx, x)
     swap_wrapper(ctx)
